@@ -76,7 +76,7 @@ def measured_degree(shape, c, w, cap=24, tol=1e-10):
     return deg
 
 
-QUERIES = ["gausscoord_disp", "normals_disp", "syscoord_disp", "integrate", "gausscoord_elems"]
+QUERIES = ["gausscoord_disp", "normals_disp", "syscoord_disp", "integrate", "gausscoord_elems", "locate"]
 
 
 def cases(tier, seed):
@@ -111,6 +111,9 @@ def cases(tier, seed):
             continue
         for seq in [(a,) for a in QUERIES] + [(a, b) for a in QUERIES for b in QUERIES]:
             out.append({"kind": "geom_history", "elemType": et, "ops": list(seq)})
+            if "locate" in seq:
+                # the same on a mirror image of the mesh (every element numbered clockwise: signed and absolute jacobians differ)
+                out.append({"kind": "geom_history", "elemType": et, "ops": list(seq), "map": "reflection"})
     for mix in Z.MIXED_2D + Z.MIXED_3D:
         # k = 2 gives both element groups the same measure (a coincidence that hides mis-weighted group averages): also k = 3, (3, 1)
         d3 = Z.dim_of(mix[0]) == 3
@@ -347,7 +350,7 @@ def _run_geom_history(case):
     et = case["elemType"]
     d = Z.dim_of(et)
     zm = Z.template_2d(et, 2) if d == 2 else Z.template_3d(et, 1 if Z.topo(et) != "HEXA" else [2, 1, 1])
-    A, b = _map("generic", d)
+    A, b = _map(case.get("map", "generic"), d)
     zm = zm.mapped(A, b)
     mesh = zm.build()
     ref = _observe_geom(zm.build(), d)  # fresh objects, no query issued
@@ -377,6 +380,9 @@ def _run_geom_history(case):
                 g.Integrate_e(lambda x, y, z: x * y, MatrixType.mass)
             elif op == "gausscoord_elems":
                 g.Get_GaussCoordinates_e_pg(MatrixType.rigi, elements=np.array([0]))
+            elif op == "locate" and g.dim == d:
+                cen = zm.coords[np.asarray(g.connect, dtype=int)].mean(axis=1)
+                g.Get_Mapping(cen, needCoordinates=True)
             ntr += 1
         obs = _observe_geom(mesh, d)
         sc = max(1.0, np.abs(ref).max())
@@ -402,7 +408,7 @@ def _run_geom_history(case):
     # the exact values too
     if "measure" in zm.exact and abs(ref[0] - zm.exact["measure"]) > 1e-11 * zm.exact["measure"]:
         v.append(viol("measure", f"{zm.name}: measure {ref[0]!r} exact {zm.exact['measure']!r}", elemType=et, k=0, distort=False, map="generic"))
-    return {"violations": v[:6], "fingerprint": fp(et, case["ops"], ref), "nontrivial": True, "transitions": ntr}
+    return {"violations": v[:6], "fingerprint": fp(et, case["ops"], case.get("map", "generic"), ref), "nontrivial": True, "transitions": ntr}
 
 
 def _run_geom_gmsh(case):
